@@ -152,10 +152,11 @@ async def run_in_process(
                 )
                 initializer = partial(_call_all, logging_initializer, initializer)
 
-            with ProcessPoolExecutor(
+            executor = ProcessPoolExecutor(
                 max_workers=1, mp_context=mp_context, initializer=initializer
-            ) as executor:
-                loop = asyncio.get_running_loop()
+            )
+            loop = asyncio.get_running_loop()
+            try:
                 future = loop.run_in_executor(executor, func)
                 process = list(executor._processes.values())[0]
 
@@ -169,6 +170,11 @@ async def run_in_process(
                     pass
                 except BaseException as e:
                     exc = e
+            finally:
+                # Wait for the process to exit in a thread so as not to block the
+                # event loop. The process cannot exit until the log records it
+                # has queued are received, which the event loop does.
+                await loop.run_in_executor(None, executor.shutdown)
         return ret, exc
 
     task = asyncio.create_task(_run())
